@@ -320,46 +320,50 @@ Section Pack.
   Definition config_is_empty_or_nil (o : opts) : bool :=
     match o_config o with None => true | Some c => str_eqb (d_mt c) MediaTypeEmptyJSON end.
 
+  (* packManifestV1_1, after the validation of artifactType *)
+  Definition pack_v1_1_body (tc : tcfg) (fa : option nat) (s : state) (at_ : str) (o : opts) (now : str)
+    : state * result :=
+    (* (state, error | (emptyBlobExists, configDesc)) *)
+    let cfg : state * (err + (bool * desc)) :=
+      match o_config o with
+      | Some c => if valid_media_type (d_mt c) then (s, inr (false, c)) else (s, inl EInvalidMediaType)
+      | None =>
+        let c := with_ann DescriptorEmptyJSON (o_config_ann o) in
+        match push_if_not_exist tc fa s c empty_json with
+        | (s1, true) => (s1, inr (true, c))
+        | (s1, false) => (s1, inl EInjected)
+        end
+      end in
+    match cfg with
+    | (s1, inl e) => (s1, Err e)
+    | (s1, inr (empty_exists, c)) =>
+      match ensure_created (o_ann o) AnnotationCreated now with
+      | None => (s1, Err EInvalidDateTime)
+      | Some ann =>
+        let lay : state * option (list desc) :=
+          match layers_or_empty (o_layers o) with
+          | [] =>
+            if empty_exists then (s1, Some [DescriptorEmptyJSON])
+            else match push_if_not_exist tc fa s1 DescriptorEmptyJSON empty_json with
+                 | (s2, true) => (s2, Some [DescriptorEmptyJSON])
+                 | (s2, false) => (s2, None)
+                 end
+          | l => (s1, Some l)
+          end in
+        match lay with
+        | (s2, None) => (s2, Err EInjected)
+        | (s2, Some l) =>
+          push_manifest tc fa s2 (mkManifest KImage (Some c) (Some l) (o_subject o) at_ ann) at_
+        end
+      end
+    end.
+
   (* packManifestV1_1 *)
   Definition pack_v1_1 (tc : tcfg) (fa : option nat) (s : state) (at_ : str) (o : opts) (now : str)
     : state * result :=
     if is_empty at_ && config_is_empty_or_nil o then (s, Err EMissingArtifactType)
     else if negb (is_empty at_) && negb (valid_media_type at_) then (s, Err EInvalidMediaType)
-    else
-      (* (state, error | (emptyBlobExists, configDesc)) *)
-      let cfg : state * (err + (bool * desc)) :=
-        match o_config o with
-        | Some c => if valid_media_type (d_mt c) then (s, inr (false, c)) else (s, inl EInvalidMediaType)
-        | None =>
-          let c := with_ann DescriptorEmptyJSON (o_config_ann o) in
-          match push_if_not_exist tc fa s c empty_json with
-          | (s1, true) => (s1, inr (true, c))
-          | (s1, false) => (s1, inl EInjected)
-          end
-        end in
-      match cfg with
-      | (s1, inl e) => (s1, Err e)
-      | (s1, inr (empty_exists, c)) =>
-        match ensure_created (o_ann o) AnnotationCreated now with
-        | None => (s1, Err EInvalidDateTime)
-        | Some ann =>
-          let lay : state * option (list desc) :=
-            match layers_or_empty (o_layers o) with
-            | [] =>
-              if empty_exists then (s1, Some [DescriptorEmptyJSON])
-              else match push_if_not_exist tc fa s1 DescriptorEmptyJSON empty_json with
-                   | (s2, true) => (s2, Some [DescriptorEmptyJSON])
-                   | (s2, false) => (s2, None)
-                   end
-            | l => (s1, Some l)
-            end in
-          match lay with
-          | (s2, None) => (s2, Err EInjected)
-          | (s2, Some l) =>
-            push_manifest tc fa s2 (mkManifest KImage (Some c) (Some l) (o_subject o) at_ ann) at_
-          end
-        end
-      end.
+    else pack_v1_1_body tc fa s at_ o now.
 
   (* packArtifact (Pack without PackImageManifest) *)
   Definition pack_artifact (tc : tcfg) (fa : option nat) (s : state) (at_ : str) (o : opts) (now : str)
